@@ -778,7 +778,7 @@ func c07BuildSessions(run *vfRun, w *vfWorld, p *vfProxy, cfg *c07Cfg, inst int,
 // ---------------------------------------------------------------------------------------------------------
 // spoofing
 
-var c07SpoofStyles = []string{"none", "canonical-x1", "lower-x1", "UPPER-x2", "mIxEd-x3", "comma-joined", "case-mix-x3", "as-configured+lookalike", "connection-listed", "connection-multi-line", "other-hop-by-hop-headers-name-it"}
+var c07SpoofStyles = []string{"none", "canonical-x1", "lower-x1", "UPPER-x2", "mIxEd-x3", "comma-joined", "case-mix-x3", "as-configured+lookalike", "connection-listed", "connection-multi-line", "other-hop-by-hop-headers-name-it", "first-line-empty"}
 
 func c07Case(name, how string) string {
 	switch how {
@@ -818,10 +818,10 @@ func c07Spoof(req *vfReq, style int, names []string, sess *c07Sess, tag string) 
 	}
 	put := func(spelling, name, v string) {
 		req.H(spelling, v)
-		client[strings.ToLower(name)] = append(client[strings.ToLower(name)], v)
+		client[strings.ToLower(name)] = append(client[strings.ToLower(name)], strings.TrimSpace(v)) // as received: optional white space is not part of the value
 		lines++
 	}
-	authzCase := []string{"canonical", "canonical", "lower", "upper", "mixed", "canonical", "lower", "canonical", "canonical", "canonical", "canonical"}[style]
+	authzCase := []string{"canonical", "canonical", "lower", "upper", "mixed", "canonical", "lower", "canonical", "canonical", "canonical", "canonical", "lower"}[style]
 	if sess.Authz != "" { // the genuine credential comes first: it is the one the proxy reads
 		put(c07Case("Authorization", authzCase), "Authorization", sess.Authz)
 		lines--
@@ -900,6 +900,21 @@ func c07Spoof(req *vfReq, style int, names []string, sess *c07Sess, tag string) 
 			put(c07Case(name, "lower"), name, val(name))
 			put(c07Case(name, "upper"), name, val(name))
 			put(c07Case(name, "canonical"), name, val(name))
+		case 11:
+			// the header repeated on 2-3 lines whose FIRST line is empty or blank-only; the value sits on the 2nd and/or 3rd line
+			d := int(tag[len(tag)-1]) + len(name)
+			sp := []string{"canonical", "lower", "upper", "mixed", "configured"}
+			put(c07Case(name, sp[d%5]), name, []string{"", " ", "\t", "   "}[d%4])
+			switch d % 3 {
+			case 0:
+				put(c07Case(name, sp[(d+1)%5]), name, val(name))
+			case 1:
+				put(c07Case(name, sp[(d+1)%5]), name, []string{"", " "}[d%2])
+				put(c07Case(name, sp[(d+2)%5]), name, val(name))
+			case 2:
+				put(c07Case(name, sp[(d+1)%5]), name, val(name))
+				put(c07Case(name, sp[(d+2)%5]), name, val(name))
+			}
 		case 7:
 			put(c07Case(name, "configured"), name, val(name))
 			look := strings.ReplaceAll(c07Case(name, "canonical"), "-", "_")
@@ -996,7 +1011,7 @@ func c07Drive(run *vfRun, w *vfWorld, p *vfProxy, cfg *c07Cfg, inst int, session
 				authEP := ep.Name == "auth-only" || ep.Name == "auth-only-denied"
 				rot := 3
 				if !run.Env.Thorough() {
-					rot = 4 // eleven styles: a rotating quarter keeps the quick tier at its previous size
+					rot = 4 // twelve styles: a rotating quarter keeps the quick tier at its previous size
 				}
 				if style != 0 && (!run.Env.Thorough() || authEP) && (style+inst+si+ei)%rot != 0 {
 					continue
@@ -1016,13 +1031,16 @@ func c07Drive(run *vfRun, w *vfWorld, p *vfProxy, cfg *c07Cfg, inst int, session
 				control := "control-" + tag
 				req.H("x-vf-CONTROL", control)
 				var resp *vfResp
-				if style >= 8 && caseNo%2 == 1 {
+				if style >= 8 && style <= 10 && caseNo%2 == 1 {
 					resp = p.Do(req) // hop-by-hop styles also over the direct driver (no "Connection: close" appended by the client)
 					run.Count("hop_by_hop_requests_direct", 1)
 				} else {
 					resp = p.Wire(req)
-					if style >= 8 {
+					if style >= 8 && style <= 10 {
 						run.Count("hop_by_hop_requests_wire", 1)
+					}
+					if style == 11 {
+						run.Count("first_line_empty_requests", 1)
 					}
 				}
 				run.Count("requests", 1)
@@ -1145,7 +1163,7 @@ func c07Drive(run *vfRun, w *vfWorld, p *vfProxy, cfg *c07Cfg, inst int, session
 							}
 						}
 						switch {
-						case style >= 8 && leak == "" && c07Judge(c07ExpectS(h, nil, cl), obs) == "" && len(obs) == 0:
+						case style >= 8 && style <= 10 && leak == "" && c07Judge(c07ExpectS(h, nil, cl), obs) == "" && len(obs) == 0:
 							sig, what = "c07:connection-header-drops-injected-header", "the client listed the name in its Connection header and the injected value is dropped before the upstream"
 						case leak != "" && cfg.Kind == "legacy" && cfg.PreferEmail && h.Optional && strings.EqualFold(h.Name, "X-Forwarded-Email"):
 							sig, what = "c07:prefer-email:x-forwarded-email-not-stripped", "client-supplied value reaches the upstream (--prefer-email-to-user leaves X-Forwarded-Email unmanaged)"
@@ -1449,7 +1467,7 @@ func c07ConcurrentPhase(run *vfRun, t *testing.T) {
 					if sess.Cookie != "" {
 						req.H("Cookie", sess.Cookie)
 					}
-					client, tokens, _ := c07Spoof(req, []int{0, 1, 3, 0}[i%4], spoofNames, sess, fmt.Sprintf("c%d.%d.%d", k, ui, i))
+					client, tokens, _ := c07Spoof(req, []int{0, 1, 3, 11}[i%4], spoofNames, sess, fmt.Sprintf("c%d.%d.%d", k, ui, i))
 					wire := i%5 == 4
 					var resp *vfResp
 					if wire {
@@ -1563,7 +1581,7 @@ func TestVerif_C07(t *testing.T) {
 		"(claim/prefix/basicAuthPassword/secret value|file|env, every claim incl. created_at/expires_on, preserve on/off, strip-only entries, non-canonical names, several values per header); " +
 		"sessions: 8 cookie-login identities (fields empty/multi/Unicode/separators; quick: the standard one + a rotating 3) + up to 3 cookie identities and 1 bearer JWT whose user/e-mail/groups/preferred_username equal, start with (once, twice) or contain the prefixes THIS configuration uses, 3 bearer JWTs, htpasswd Basic + sign-in form (16/32 instances, those injecting time claims first), none, invalid cookie; " +
 		"endpoints: proxied (methods rotate), bypassed (--skip-auth-route), /oauth2/auth (202/401), /oauth2/auth?allowed_groups=... (403); " +
-		"11 client header styles over the wire (canonical/lower/UPPER/mIxEd, x1-x3, comma-joined, case mix, as-configured + '_' look-alike, names listed in Connection on one line, on 2-3 Connection lines at every position, in Keep-Alive/Proxy-Connection/TE/Trailer/Upgrade; the hop-by-hop styles also over the direct driver); identities without user-id claim (session.User empty, e-mail set). " +
+		"12 client header styles over the wire (repeated on 2-3 lines with an EMPTY or blank-only first line and the value on the 2nd/3rd; canonical/lower/UPPER/mIxEd, x1-x3, comma-joined, case mix, as-configured + '_' look-alike, names listed in Connection on one line, on 2-3 Connection lines at every position, in Keep-Alive/Proxy-Connection/TE/Trailer/Upgrade; the hop-by-hop styles also over the direct driver); identities without user-id claim (session.User empty, e-mail set). " +
 		"concurrent phase: 3 configurations with Basic-auth / prefix / plain / multi-valued injection x 10 users of different name lengths (8 cookie, 2 bearer) hammering the same instance simultaneously (300/1500 requests each), every request judged against its OWN session; race-detector reports in the injector are violations. " +
 		"cell = (option bucket, session source/class, endpoint, spoof style); non-trivial = at least one header configured")
 	run.Assume("header names configured only for responses, names not configured at all and look-alikes with '_' are counted, not judged",
@@ -1644,6 +1662,10 @@ func TestVerif_C07(t *testing.T) {
 		run.Inconclusive("too few judged header names")
 		run.Count("too_few_names", 1)
 		fmt.Printf("INCONCLUSIVE property=C07 reason=too few header names judged %v\n", []int64{run.Counter("judged_request_names"), run.Counter("judged_response_names"), run.Counter("judged_preserved_names")})
+		t.Fail()
+	}
+	if run.Counter("first_line_empty_requests") < int64(run.Env.Pick(800, 20000)) {
+		fmt.Printf("INCONCLUSIVE property=C07 reason=too few requests with an empty first header line (%d)\n", run.Counter("first_line_empty_requests"))
 		t.Fail()
 	}
 	if run.Counter("sessions_without_user") < int64(run.Env.Pick(60, 400)) || run.Counter("hop_by_hop_requests_wire") < int64(run.Env.Pick(800, 20000)) || run.Counter("hop_by_hop_requests_direct") < int64(run.Env.Pick(800, 20000)) {
